@@ -16,14 +16,27 @@ fn main() {
     if !a.flag("show-panics") {
         std::panic::set_hook(Box::new(|_| {}));
     }
-    let mut shard = Shard::new("thread", &prop, &replay_dir);
-    shard.replay_args = if small { vec!["--small".into()] } else { vec![] };
+    let mut shard0 = Shard::new("thread", &prop, &replay_dir);
+    shard0.replay_args = if small { vec!["--small".into()] } else { vec![] };
+    let shard = std::sync::Arc::new(std::sync::Mutex::new(shard0));
     let repeat = a.u64("repeat", 20);
     let seeds: Vec<u64> = if let Some(s) = a.get("replay") { std::iter::repeat(s.parse().expect("seed")).take(repeat as usize).collect() } else { (start..start + count).map(|i| splitmix(base, i)).collect() };
     for seed in seeds {
         let sc = gen_thread(seed, small);
-        let out = run_threads(&sc, watchdog);
         let desc = sc.to_json();
+        let on_deadlock: OnDeadlock = {
+            let (shard, desc) = (shard.clone(), desc.clone());
+            std::sync::Arc::new(move |v, dump: String| {
+                // the scenario thread may be one of the stuck ones: publish from here and end the process
+                let mut sh = shard.lock().unwrap();
+                let mut st = vh::mon::Stats::default();
+                st.inc("threads.deadlocks");
+                sh.record(seed, &[v], &st, seed, true, false, &|| desc.clone(), &[], &[dump.clone()]);
+                sh.print();
+                std::process::exit(0);
+            })
+        };
+        let out = run_threads(&sc, watchdog, on_deadlock);
         let nt = out.stats.get("nontrivial") > 0;
         if verbose || a.get("replay").is_some() {
             eprintln!("seed {}: {} violations={} inconclusive={:?}", seed, desc, out.violations.len(), out.inconclusive);
@@ -34,7 +47,7 @@ fn main() {
                 eprintln!("  note: {}", n);
             }
         }
-        shard.record(seed, &out.violations, &out.stats, out.fp, nt, out.inconclusive.is_some(), &|| desc.clone(), &[], &out.notes);
+        shard.lock().unwrap().record(seed, &out.violations, &out.stats, out.fp, nt, out.inconclusive.is_some(), &|| desc.clone(), &[], &out.notes);
     }
-    shard.print();
+    shard.lock().unwrap().print();
 }
